@@ -46,13 +46,17 @@ type Script struct {
 	NoFinalEmpty bool     `json:"no_final_empty,omitempty"` // omit the empty stdout record that closes the stream
 	NoEnd        bool     `json:"no_end,omitempty"`         // omit END_REQUEST (just close)
 	AppStatus    int      `json:"app_status,omitempty"`
+	Salt         int      `json:"salt,omitempty"` // varies the body bytes, so that two responses of the same length differ
 }
 
 // Body returns the deterministic body of length n.
-func Body(n int) []byte {
+func Body(n int) []byte { return BodySalted(n, 0) }
+
+// BodySalted returns the deterministic body of length n for a salt.
+func BodySalted(n, salt int) []byte {
 	b := make([]byte, n)
 	for i := range b {
-		b[i] = byte('a' + (i*7+i/1013)%26)
+		b[i] = byte('a' + (i*7+i/1013+salt)%26)
 	}
 	return b
 }
@@ -64,7 +68,7 @@ type out struct {
 }
 
 func (sc *Script) records() []out {
-	stream := append([]byte(sc.Head), Body(sc.BodyLen)...)
+	stream := append([]byte(sc.Head), BodySalted(sc.BodyLen, sc.Salt)...)
 	var outs []out
 	cuts := sc.Cuts
 	if len(cuts) == 0 {
